@@ -1015,3 +1015,329 @@ def run_cases(cases, workers=12):
     import multiprocessing as mp
     with mp.get_context("fork").Pool(workers) as pool:
         return pool.map(eval_case, cases, chunksize=max(1, len(cases) // (workers * 8)))
+
+
+# ------------------------------------------------------------------------------------------
+# (added) the non-separable modes where ClipColor is active: designed colour pairs through the real compositor
+# ------------------------------------------------------------------------------------------
+# saturated primaries / secondaries, a dark and a bright tinted colour, two mid colours: SetLum of a saturated colour to a
+# much darker luminosity leaves the cube below 0, to a much brighter one above 1 (never both: the range of a colour is <= 1)
+CLIP_PALETTE = [(255, 0, 0), (0, 255, 0), (0, 0, 255), (255, 255, 0), (255, 0, 255), (24, 12, 6), (250, 240, 222), (200, 60, 90)]
+CLIP_MODES = ["HUE", "SATURATION", "COLOR", "LUMINOSITY", "DARKER_COLOR", "LIGHTER_COLOR"]
+CLIP_VARIANTS = ["opaque", "translucent", "in-isolated-group", "in-passthrough-group", "clip-layer", "group-blend"]
+
+
+def _px_node(rect, color, alpha=None, **kw):
+    l, t, r, b = rect
+    n = {"t": "pixel", "rect": list(rect), "color": np.ascontiguousarray(color, dtype=np.uint8),
+         "alpha": None if alpha is None else np.ascontiguousarray(alpha, dtype=np.uint8),
+         "opacity": 255, "fill": None, "blend": "NORMAL", "visible": True, "clip": False, "knockout": False, "mask": None}
+    n.update(kw)
+    return n
+
+
+def _group_node(children, blend="PASS_THROUGH", **kw):
+    n = {"t": "group", "blend": blend, "opacity": 255, "fill": None, "visible": True, "clip": False, "knockout": False,
+         "mask": None, "children": children}
+    n.update(kw)
+    return n
+
+
+def pair_grid(palette):
+    """(backdrop colours, source colours) as (n, n, 3) uint8 arrays: pixel (x, y) pairs backdrop palette[y] with source palette[x]"""
+    p = np.asarray(palette, dtype=np.uint8)
+    n = len(p)
+    return np.repeat(p[:, None, :], n, axis=1), np.repeat(p[None, :, :], n, axis=0)
+
+
+def nonsep_doc(mode_name, variant, palette=None):
+    """an RGB document whose top element blends every ordered pair of `palette` with the non-separable mode `mode_name`"""
+    cb, cs = pair_grid(palette or CLIP_PALETTE)
+    n = cb.shape[0]
+    R = [0, 0, n, n]
+    full = np.full((n, n), 255, np.uint8)
+    if variant == "opaque":
+        recipe = [_px_node(R, cb, full), _px_node(R, cs, None, blend=mode_name)]
+    elif variant == "translucent":
+        a = np.full((n, n), 160, np.uint8)
+        a[::2, 1::2] = 255
+        recipe = [_px_node(R, cb, np.full((n, n), 200, np.uint8)), _px_node(R, cs, a, blend=mode_name, opacity=200)]
+    elif variant == "in-isolated-group":
+        recipe = [_px_node(R, cb, full), _group_node([_px_node(R, cb, full), _px_node(R, cs, full, blend=mode_name)], "NORMAL")]
+    elif variant == "in-passthrough-group":
+        recipe = [_px_node(R, cb, full), _group_node([_px_node(R, cs, full, blend=mode_name, opacity=230)], "PASS_THROUGH")]
+    elif variant == "clip-layer":
+        recipe = [_px_node(R, cb, full), _px_node(R, cs, full, blend=mode_name, clip=True)]
+    elif variant == "group-blend":
+        recipe = [_px_node(R, cb, full), _group_node([_px_node(R, cs, full)], mode_name)]
+    else:
+        raise KeyError(variant)
+    doc = {"recipe": recipe, "size": [n, n], "mode": "RGB", "family": "nonsep/%s/%s" % (mode_name, variant)}
+    name_nodes(doc["recipe"])
+    return doc
+
+
+def nonsep_docs(rng=None, extra=0):
+    """the deterministic documents (every non-separable mode x every variant over CLIP_PALETTE) and `extra` seeded ones
+    whose palette is drawn from `rng` (saturated colours with jitter, dark / bright tinted colours)"""
+    docs = [nonsep_doc(m, v) for m in CLIP_MODES for v in CLIP_VARIANTS]
+    for k in range(extra):
+        pal = []
+        for _ in range(6):
+            hi, lo = rng.randrange(215, 256), rng.randrange(0, 41)
+            c = [lo, lo, lo]
+            for i in rng.sample(range(3), rng.choice([1, 1, 2])):
+                c[i] = hi
+            c[rng.randrange(3)] = max(0, min(255, c[rng.randrange(3)] + rng.randrange(-30, 31)))
+            pal.append(tuple(c))
+        d = rng.randrange(2, 40)
+        pal.append((d + rng.randrange(0, 12), d, max(0, d - rng.randrange(0, 12))))
+        b = rng.randrange(215, 250)
+        pal.append((min(255, b + rng.randrange(0, 6)), b, b - rng.randrange(4, 30)))
+        docs.append(nonsep_doc(CLIP_MODES[k % 4], CLIP_VARIANTS[(k // 4 + k) % len(CLIP_VARIANTS)], pal))
+    return docs
+
+
+def clip_classes(mode_name, cb, cs):
+    """per colour pair (float arrays (..., 3) in [0,1]): 'below' / 'above' / 'inside' - where SetLum's intermediate colour lies
+    relative to the unit cube BEFORE ClipColor (the published procedure, float64); None for the two selecting modes"""
+    from props.C12 import s_lum, s_sat, s_setsat
+    fn = mode_name.lower()
+    cb, cs = np.asarray(cb, dtype=np.float64), np.asarray(cs, dtype=np.float64)
+    with np.errstate(all="ignore"):
+        if fn == "hue":
+            c, l = s_setsat(cs, s_sat(cb)), s_lum(cb)
+        elif fn == "saturation":
+            c, l = s_setsat(cb, s_sat(cs)), s_lum(cb)
+        elif fn == "color":
+            c, l = cs, s_lum(cb)
+        elif fn == "luminosity":
+            c, l = cb, s_lum(cs)
+        else:
+            return None
+        c = np.nan_to_num(c)
+        c2 = c + (l - s_lum(c))[..., None]
+    out = np.full(c2.shape[:-1], "inside", dtype=object)
+    out[c2.min(-1) < -1e-3] = "below"
+    out[c2.max(-1) > 1 + 1e-3] = "above"
+    return out
+
+
+# ------------------------------------------------------------------------------------------
+# (added) repeated composites of ONE object: same answer every time, same as a freshly opened twin, results not aliased
+# ------------------------------------------------------------------------------------------
+def _same(a, b):
+    """two composite results (c, s, a) are the same arrays, bit for bit (NaN = NaN)"""
+    for x, y in zip(a, b):
+        x, y = np.asarray(x), np.asarray(y)
+        if x.shape != y.shape or not np.array_equal(x, y, equal_nan=True):
+            return False
+    return True
+
+
+def _first_diff(a, b):
+    for nm, x, y in zip(("color", "shape", "alpha"), a, b):
+        x, y = np.asarray(x, dtype=np.float64), np.asarray(y, dtype=np.float64)
+        if x.shape != y.shape:
+            return {"which": nm, "shape_now": list(x.shape), "shape_expected": list(y.shape)}
+        d = np.abs(np.nan_to_num(x) - np.nan_to_num(y))
+        if x.size and (d.max() > 0 or not np.array_equal(np.isnan(x), np.isnan(y))):
+            i = np.unravel_index(int(np.argmax(d)), d.shape)
+            return {"which": nm, "pixel": [int(i[1]), int(i[0])], "now": float(x[i]), "expected": float(y[i]), "diff": float(d.max())}
+    return None
+
+
+def _copy3(r):
+    return tuple(np.array(v, copy=True) for v in r)
+
+
+def repeat_viewports(doc):
+    """the canvas, the box of every pixel node (a layer that fills the viewport exactly), a crop and a shifted window"""
+    W, H = doc["size"]
+    vs = [None]
+    for n in walk(doc["recipe"]):
+        if n["t"] != "group":
+            l, t, r, b = n["rect"]
+            if r > l and b > t and [l, t, r, b] != [0, 0, W, H] and (l, t, r, b) not in vs:
+                vs.append((l, t, r, b))
+    vs = vs[:3]
+    if W > 1 or H > 1:
+        vs.append((0, 0, max(1, W - 1), max(1, H - 1)))
+    vs.append((-1, -1, W, H + 1))
+    return vs
+
+
+def _scribble(arr):
+    """overwrite an array handed out by the library (what a caller may legitimately do with a result); False if read-only"""
+    try:
+        if not arr.flags.writeable:
+            return False
+        arr[...] = 0.3 if arr.dtype.kind == "f" else 77
+        return True
+    except Exception:  # noqa
+        return False
+
+
+def eval_repeat(case):
+    """One PSDImage object A, a script of calls; every answer is compared with the FIRST answer of a freshly built twin to
+    the same call (the twin is rebuilt for every call, so it has no history).  Script: composite(A) three times; composite of
+    every layer / group (twice each); composite(A) under several viewports (twice each); numpy() / topil() of every layer and
+    of the document, scribbling over what is returned, and asking again; scribbling over the arrays composite() returned;
+    finally composite(A) once more.  -> {"error"|None, "problems": [ {what, call, step, detail} ], "calls": n}"""
+    from psd_tools.composite import composite
+    doc = case["doc"]
+    bd, flt = case.get("backdrop"), case.get("filter")
+    out = {"error": None, "problems": [], "calls": 0, "script": []}
+    lf = name_filter(**flt) if flt else None
+
+    def doc_call(psd, viewport=None):
+        return real_composite(psd, viewport=viewport, color=None if bd is None else bd[0],
+                              alpha=None if bd is None else bd[1], layer_filter=lf)
+
+    def layer_call(psd, k, **kw):
+        layer = list(psd.descendants())[k]
+        with np.errstate(all="ignore"):
+            return tuple(np.asarray(v) for v in composite(layer, **kw))
+
+    def problem(what, call, now, want):
+        out["problems"].append({"what": what, "call": call, "step": len(out["script"]), "detail": _first_diff(now, want)})
+
+    try:
+        A = build(doc)
+        nlayers = len(list(A.descendants()))
+        only = case.get("only")          # (shrinking) restrict the script to the kinds of calls named
+        fresh = {}
+
+        def twin(key, f):
+            if key not in fresh:
+                fresh[key] = _copy3(f(build(doc)))
+            return fresh[key]
+
+        def step(kind, key, fA, fB, times=2):
+            if only and kind not in only:
+                return None
+            want = twin(key, fB)
+            last = None
+            for k in range(times):
+                out["script"].append(key)
+                out["calls"] += 1
+                last = fA()
+                if not _same(last, want):
+                    problem("%s-differs-from-fresh-document/%s" % (kind, "first-call" if len(out["script"]) == 1
+                                                                  else "after-earlier-calls"), key, last, want)
+                    return last
+            return last
+
+        first = step("composite", "composite(psd)", lambda: doc_call(A), lambda p: doc_call(p), times=3)
+        for k in range(min(nlayers, 6)):
+            step("layer-composite", "composite(layer %d)" % k, lambda k=k: layer_call(A, k), lambda p, k=k: layer_call(p, k))
+            if out["problems"]:
+                break
+        if not out["problems"]:
+            for k in range(min(nlayers, 3)):
+                step("layer-composite", "composite(layer %d, as_layer=True)" % k, lambda k=k: layer_call(A, k, as_layer=True),
+                     lambda p, k=k: layer_call(p, k, as_layer=True), times=1)
+        if not out["problems"]:
+            # (a backdrop array is made for the canvas: with one, only the canvas is a legal viewport)
+            for v in (repeat_viewports(doc) if bd is None else [None]):
+                step("viewport-composite", "composite(psd, viewport=%s)" % (list(v) if v else None),
+                     lambda v=v: doc_call(A, v), lambda p, v=v: doc_call(p, v))
+                if out["problems"]:
+                    break
+        # results handed to the caller are the caller's: overwriting them must not change later answers
+        if not out["problems"] and (not only or "aliasing" in only):
+            ls = list(A.descendants())
+            for k, layer in enumerate(ls[:6]):
+                for ch in ("color", "shape", None, "mask"):
+                    call = "layer %d .numpy(%r)" % (k, ch)
+                    try:
+                        a = layer.numpy(ch) if ch != "mask" else (layer.numpy("mask") if layer.has_mask() else None)
+                    except Exception:  # noqa  (what numpy() accepts is C07's business)
+                        a = None
+                    if a is None:
+                        continue
+                    keep = np.array(a, copy=True)
+                    out["script"].append(call + " scribbled")
+                    if not _scribble(a):
+                        continue
+                    b = layer.numpy(ch)
+                    out["calls"] += 1
+                    if b is None or b.shape != keep.shape or not np.array_equal(b, keep, equal_nan=True):
+                        problem("returned-array-aliased/layer.numpy", call, (np.asarray(b, dtype=np.float64),), (keep,))
+                        break
+                if out["problems"]:
+                    break
+            if not out["problems"] and first is not None:
+                keep = _copy3(first)
+                out["script"].append("arrays returned by composite(psd) scribbled")
+                for v in first:
+                    _scribble(v)
+                for ch in (None, "shape"):
+                    try:
+                        v = A.numpy(ch)
+                    except Exception:  # noqa  (a document without merged image: C17's business)
+                        v = None
+                    if v is not None:
+                        _scribble(v)
+                again = doc_call(A)
+                out["calls"] += 1
+                if not _same(again, keep):
+                    problem("returned-array-aliased/composite", "composite(psd) after overwriting earlier results", again, keep)
+        if not out["problems"] and first is not None:
+            step("composite", "composite(psd)", lambda: doc_call(A), lambda p: doc_call(p), times=1)
+    except Exception as e:  # the implementation raised somewhere in the script
+        import traceback
+        tb = traceback.extract_tb(e.__traceback__)
+        inrepo = [f for f in tb if str(core.REPO) in f.filename]
+        where = f"{inrepo[-1].filename.split('/src/')[-1]}:{inrepo[-1].name}" if inrepo else "harness"
+        out["error"] = {"type": type(e).__name__, "msg": str(e)[:200], "where": where, "in_repo": bool(inrepo),
+                        "after": out["script"][-3:]}
+    return out
+
+
+def run_repeat(cases, workers=12):
+    if len(cases) < 8 or workers <= 1:
+        return [eval_repeat(c) for c in cases]
+    import multiprocessing as mp
+    with mp.get_context("fork").Pool(workers) as pool:
+        return pool.map(eval_repeat, cases, chunksize=max(1, len(cases) // (workers * 8)))
+
+
+def repeat_docs():
+    """documents made for the repeated-composite check: a layer that fills the canvas (so its box IS the viewport), with a
+    transparency channel and a raster mask with grey values (0 / 255 masks are idempotent under repeated application), alone,
+    with density, in a group that carries the mask, as a clipping base and as a clip layer; RGB and L"""
+    docs = []
+    for mode, n in (("RGB", 4), ("L", 3), ("CMYK", 3)):
+        C = MODE_CH[mode]
+        r = np.random.RandomState(4242 + n + C)
+        R = [0, 0, n, n]
+
+        def col():
+            return r.randint(0, 256, size=(n, n, C)).astype(np.uint8)
+
+        def alpha():
+            return r.choice([60, 128, 200, 255], size=(n, n)).astype(np.uint8)
+
+        def mask(rect=R, **kw):
+            m = {"rect": list(rect), "bg": 0, "data": r.choice([40, 90, 128, 200], size=(rect[3] - rect[1], rect[2] - rect[0])).astype(np.uint8),
+                 "disabled": False, "density": None}
+            m.update(kw)
+            return m
+        fams = {
+            "masked-full-layer": [_px_node(R, col(), alpha(), mask=mask())],
+            "masked-full-layer-over-base": [_px_node(R, col(), None), _px_node(R, col(), alpha(), mask=mask(), opacity=200)],
+            "masked-layer-density": [_px_node(R, col(), None), _px_node(R, col(), alpha(), mask=mask(density=128, bg=255))],
+            "masked-offset-layer": [_px_node(R, col(), None), _px_node([1, 0, n, n - 1], col()[:n - 1, :n - 1], alpha()[:n - 1, :n - 1],
+                                                                    mask=mask([1, 0, n, n - 1]))],
+            "masked-group": [_px_node(R, col(), None), _group_node([_px_node(R, col(), alpha())], "NORMAL", mask=mask())],
+            "masked-passthrough-group": [_px_node(R, col(), alpha()), _group_node([_px_node(R, col(), alpha(), mask=mask())],
+                                                                                 "PASS_THROUGH", mask=mask(), opacity=180)],
+            "masked-clip-base": [_px_node(R, col(), alpha(), mask=mask()), _px_node(R, col(), alpha(), clip=True)],
+            "masked-clip-layer": [_px_node(R, col(), alpha()), _px_node(R, col(), alpha(), clip=True, mask=mask())],
+        }
+        for fam, recipe in fams.items():
+            d = {"recipe": recipe, "size": [n, n], "mode": mode, "family": "repeat/" + fam}
+            name_nodes(d["recipe"])
+            docs.append(d)
+    return docs
